@@ -30,7 +30,7 @@ ASSUMPTIONS = [
     "read_file: the file exists and is readable (os:* atoms total)",
 ]
 TRUSTED = ["tools/gen/wrappers.py (Python AST -> Stmt skeleton)", "big-step semantics of try/except/finally/raise in S2T/Model/Wrapper.lean"]
-LIMIT_S = 60
+LIMIT_S = 40
 
 
 class FaultIO(io.BytesIO):
@@ -163,6 +163,10 @@ def _hostile_cases(ctx, fx):
         else:
             kind, data2 = "same", data
         cases.append((f"cross[{kind}]:{name}->{f}", m, f, data2))
+    # grammar/dictionary generated RTF (control words harvested from the current source x extreme parameters)
+    rm, rf = by_ft["rtf"]
+    for i, d in enumerate(corpus.rtf_token_docs(rng, ctx.n(500, 6000))):
+        cases.append((f"rtfgrammar:{i}", rm, rf, d))
     # tiny synthetic inputs for every extractor
     tiny = [b"", b"\x00", b"PK", b"PK\x03\x04", b"\xd0\xcf\x11\xe0\xa1\xb1\x1a\xe1", b"%PDF-1.4", b"{\\rtf1", b"From a\n", b"<", b"7z\xbc\xaf\x27\x1c",
             b"\xff\xfe", b"\xef\xbb\xbf", b"\x1f\x8b", b"BZh", b"\xfd7zXZ\x00", b"PK\x05\x06" + b"\x00" * 18, b"{\\rtf1 \\u-10179?\\u-8704?}", b"\xd0\xcf\x11\xe0\xa1\xb1\x1a\xe1" + b"\x00" * 600]
@@ -189,7 +193,16 @@ def _hostile_stream(ctx, fx):
         with mp.get_context("fork").Pool(min(14, os.cpu_count() or 2)) as pool:
             results = pool.map(_run_case, cases, chunksize=8)
     else:
-        results = [_run_case(c) for c in cases]
+        results = []
+        hangs = 0
+        for c in cases:
+            r = _run_case(c)
+            results.append(r)
+            if r[3] == "hang":
+                hangs += 1
+                if hangs >= 2:   # do not sit through one time limit per case once a hang is established
+                    break
+        cases = cases[:len(results)]
     nbad = 0
     for (label, m, f, data), (_, _, _, kind, info, rep) in zip(cases, results):
         ctx.case(("hostile", f, hashlib.sha1(data).hexdigest()), nontrivial=not label.startswith("tiny"))
